@@ -155,7 +155,12 @@ func (h *Hub) Run() {
 			}
 
 		case clientUpdate := <-h.clientUpdates:
-			clientID := h.clients[clientUpdate.client]
+			clientID, registered := h.clients[clientUpdate.client]
+			if !registered {
+				// The hub may already have let go of this client (its send queue
+				// was full) while its readPump still forwards frames.
+				continue
+			}
 			update := clientUpdate.update
 			switch update.Type {
 			case ClientSetDisplayNameMessageType:
